@@ -519,8 +519,11 @@ def _twin():
 
 def main(tier):
     rep = runner.Report("C19", tier, "other")
-    for e in self_validate(runner.seed()):
-        rep.errors.append("self-validation: " + e)
+    try:
+        for e in self_validate(runner.seed()):
+            rep.errors.append("self-validation: " + e)
+    except (Exception, Unsupported, Inconclusive, PathLimit) as e:  # noqa -- an unmodelled operation reached by the library's code: a harness error, but the run goes on
+        rep.errors.append(f"self-validation stopped: {type(e).__name__}: {e}")
     tasks = tasks_for(tier, runner.seed())
     results = runner.pmap(_dispatch, tasks)
     from collections import Counter
@@ -554,7 +557,11 @@ def main(tier):
         rep.violation(f"plan of {b['steps']} steps: extracted {b['library']}",
                       {"property": "C19", "kind": "c19", "task": {"kind": "long"}, "cex": {"log": b["log"], "entry": "status",
                                                                                             "what": "long plan"}})
-    tw = _twin()
+    try:
+        tw = _twin()
+    except (Exception, Unsupported, Inconclusive, PathLimit) as e:  # noqa
+        tw = False
+        rep.errors.append(f"vacuity twin stopped: {type(e).__name__}: {e}")
     if not tw:
         rep.twins_failed.append("vacuity twin (expectation without lower-casing) was not refuted")
     q = dict(agg)
